@@ -200,6 +200,10 @@ pub fn check(case: &Case, idx: u64, acc: &mut Acc) {
                 for ord in orders.iter() {
                     let quotes: Vec<(usize, usize, f64)> = ord.iter().map(|i| fq[*i]).collect();
                     for base in std::iter::once(None).chain((0..n).map(Some)) {
+                        // six currencies with every ordering: three of the seven base choices (None, first, last)
+                        if n >= 6 && *all_orders && !(base.is_none() || base == Some(0) || base == Some(n - 1)) {
+                            continue;
+                        }
                         if !is_chain && !is_star {
                             acc.nontrivial();
                         }
